@@ -705,7 +705,9 @@ func (u *Unmarshaler) processFieldPrimitiveWithJSONNumber(fieldType reflect.Type
 			return err
 		}
 	case reflect.Float32:
-		fValue, err := v.Float64()
+		// parse with 32 bits directly, rounding to float64 first and to float32 afterwards
+		// can yield a different value than encoding/json does.
+		fValue, err := strconv.ParseFloat(v.String(), 32)
 		if err != nil {
 			return err
 		}
